@@ -428,4 +428,87 @@ theorem c09_rebuild_never_places_new_location_on_reserved (cfg : RichCfg) (table
   rw [this]
   simp [reqsOf, hnone]
 
+/-! ### a NEW (index-less) location: its reference is the slot the save put it on -/
+
+/-- the uid ↦ slot list the rebuild returns, for placements whose uids are pairwise different: looking up the uid
+of the `k`-th element of the placement gives the slot the allocator handed to it -/
+theorem lookup_placed (placement : List RLoc) (ress : List Res) (hu : (placement.map (·.uid)).Nodup) :
+    ∀ (k : Nat) (hk : k < placement.length) (hk' : k < ress.length) (s : Nat), ress[k] = .placed s →
+      ((placedOf placement ress).filterMap fun (l, uid) => l.idx.map fun i => (uid, i)).lookup placement[k].uid = some s := by
+  induction placement generalizing ress with
+  | nil => intro k hk; simp at hk
+  | cons l ls ih =>
+    intro k hk hk' s hp
+    cases ress with
+    | nil => simp at hk'
+    | cons r rs =>
+      have hnd : l.uid ∉ ls.map (·.uid) ∧ (ls.map (·.uid)).Nodup := List.nodup_cons.mp (by rw [List.map_cons] at hu; exact hu)
+      cases k with
+      | zero =>
+        simp only [List.getElem_cons_zero] at hp ⊢
+        subst hp
+        simp [placedOf, List.lookup]
+      | succ k =>
+        have hk1 : k < ls.length := by simpa using hk
+        have hk2 : k < rs.length := by simpa using hk'
+        have hrec := ih rs hnd.2 k hk1 hk2 s (by simpa using hp)
+        have hne : (ls[k].uid == l.uid) = false := by
+          have : ls[k].uid ∈ ls.map (·.uid) := List.mem_map.mpr ⟨ls[k], List.getElem_mem hk1, rfl⟩
+          have hneq : ls[k].uid ≠ l.uid := fun e => hnd.1 (e ▸ this)
+          simpa using hneq
+        simp only [List.getElem_cons_succ]
+        cases r with
+        | placed s0 =>
+          simp only [placedOf, List.zip_cons_cons, List.filterMap_cons, Option.map_some, List.lookup, hne]
+          simpa [placedOf] using hrec
+        | skipped =>
+          simp only [placedOf, List.zip_cons_cons, List.filterMap_cons]
+          simpa [placedOf] using hrec
+
+theorem placed_mem (placement : List RLoc) (ress : List Res) :
+    ∀ (k : Nat) (hk : k < placement.length) (hk' : k < ress.length) (s : Nat), ress[k] = .placed s →
+      ({ placement[k] with idx := some s } : RLoc) ∈ (placedOf placement ress).map (·.1) := by
+  induction placement generalizing ress with
+  | nil => intro k hk; simp at hk
+  | cons l ls ih =>
+    intro k hk hk' s hp
+    cases ress with
+    | nil => simp at hk'
+    | cons r rs =>
+      cases k with
+      | zero =>
+        simp only [List.getElem_cons_zero] at hp ⊢
+        subst hp
+        simp [placedOf]
+      | succ k =>
+        have hrec := ih rs k (by simpa using hk) (by simpa using hk') s (by simpa using hp)
+        simp only [List.getElem_cons_succ]
+        cases r with
+        | placed s0 =>
+          simp only [placedOf, List.zip_cons_cons, List.filterMap_cons, List.map_cons]
+          exact List.mem_cons_of_mem _ (by simpa [placedOf] using hrec)
+        | skipped =>
+          simp only [placedOf, List.zip_cons_cons, List.filterMap_cons]
+          simpa [placedOf] using hrec
+
+/-- **a new location is referred to by the slot the save put it on**: in the location rebuild (`mrgnCore`), if the
+allocator placed the `k`-th element of the batch — an object that carried no index — on slot `s`, then with the
+uid ↦ slot list the rebuild returns as the encode context, a reference to that object is written as `s`, and the
+emitted table contains that object with index `s` (which, by `c11_emitted_slot_holds_its_location`, is what slot `s`
+resolves to).  Objects of one batch have pairwise different identities (`hu`). -/
+theorem c04_new_location_reference_is_its_slot (b : List RLoc) (ress : List Res)
+    (hu : ((placementOf b).map (·.uid)).Nodup)
+    (k : Nat) (hk : k < (placementOf b).length) (hk' : k < ress.length) (s : Nat) (hp : ress[k] = .placed s)
+    (hnone : (placementOf b)[k].idx = none)
+    (ctx : EncCtx)
+    (hctx : ctx.locIds = (placedOf (placementOf b) ress).filterMap fun (l, uid) => l.idx.map fun i => (uid, i)) :
+    locId ctx (placementOf b)[k] = some s ∧
+    ({ (placementOf b)[k] with idx := some s } : RLoc) ∈ (placedOf (placementOf b) ress).map (·.1) := by
+  refine ⟨?_, placed_mem _ _ k hk hk' s hp⟩
+  unfold locId
+  rw [hnone]
+  simp only
+  rw [hctx]
+  exact lookup_placed _ _ hu k hk hk' s hp
+
 end Richchk.Props.C14
